@@ -108,17 +108,18 @@ func NewPeerPool(cfg PeerPoolConfig) (*PeerPool, error) {
 		dnsServers = append(dnsServers, ip)
 	}
 
-	// Ensure peers list includes this node
-	allPeers := cfg.Peers
-	nodeFound := false
-	for _, p := range allPeers {
-		if p == cfg.NodeID {
-			nodeFound = true
-			break
+	// Ensure peers list includes this node. The hash ring is a set: a peer that is
+	// listed twice must appear once, otherwise the ranked fallback list repeats it and
+	// RemovePeer (which deletes one entry) leaves it owning subscribers. Built as a
+	// private copy so the caller's slice is not sorted in place.
+	allPeers := make([]string, 0, len(cfg.Peers)+1)
+	seenPeer := make(map[string]struct{}, len(cfg.Peers)+1)
+	for _, p := range append(append([]string{}, cfg.Peers...), cfg.NodeID) {
+		if _, dup := seenPeer[p]; dup {
+			continue
 		}
-	}
-	if !nodeFound {
-		allPeers = append(allPeers, cfg.NodeID)
+		seenPeer[p] = struct{}{}
+		allPeers = append(allPeers, p)
 	}
 
 	// Sort peers for consistent hashing
